@@ -182,6 +182,25 @@ func cmdCheck(args []string) int {
 			reports = append(reports, x.verifyLemma(l))
 		}
 	}
+	if os.Getenv("GVERIF_DEBUG") != "" {
+		cnt := map[string]int{}
+		for _, ob := range x.obls {
+			if ob.Kind == "post" {
+				for _, d := range ob.Path {
+					cnt[d]++
+				}
+			}
+		}
+		var ks []string
+		for k := range cnt {
+			ks = append(ks, k)
+		}
+		sort.Strings(ks)
+		for _, k := range ks {
+			fmt.Fprintf(os.Stderr, "branch %-40s %d\n", k, cnt[k])
+		}
+		os.Exit(0)
+	}
 	genS := time.Since(t0).Seconds() - loadS
 	// attribution: an obligation counts for this property if it is untagged (helper) or tagged with it
 	var mine []*Obligation
